@@ -228,10 +228,11 @@ def extend_schema(
     ]
 
     # Cast is safe as type defs will always lead to named types and not wrapped types
+    # All the types of the schema must be carried over, not only the extended
+    # ones: types which cannot be inferred by traversing the root types (e.g.
+    # interface implementations) would otherwise be dropped.
     types = [
-        cast(NamedType, builder.extend_type(t))
-        for t in schema.types.values()
-        if t.name in type_exts
+        cast(NamedType, builder.extend_type(t)) for t in schema.types.values()
     ] + [
         cast(NamedType, builder.extend_type(builder.build_type(t)))
         for t in type_defs.values()
